@@ -1,5 +1,7 @@
 import Driver.Proto
 import PdtVerif.Model.CommandLine
+import PdtVerif.Model.CommandLineTimed
+import PdtVerif.Model.CommandLineCosts
 import PdtVerif.Spec.Levenshtein
 /-! Driver for C17: command-level models of `command_line.py`. Names travel as JSON strings
 and are handled as `List Char`; exact numbers as "n/d". -/
@@ -217,9 +219,23 @@ def c17Er : Handler := fun c => do
       let t' := t.map (fun ((r, h), e) => (canon r h, e))
       fun r h => (t'.lookup (canon r h)).getD 1000000000
   let one := erFromDirs ltName erCanon rep ign warn dist perUtt false 1 refs hyps
-  pure (objJ [("pinned", erOutJ pinned), ("fixed", erOutJ fixed), ("batch1", erOutJ one),
+  -- `--costs i d s`: C02's model of `error_rate` itself as the count (no observed table):
+  -- the command with the real batch size, and the batch-free spec
+  let costs : Option PdtVerif.Lev.Costs ← match fieldOpt c "costs" with
+    | none | some Json.null => pure none
+    | some cj => do
+      let l ← jsonToList jsonToRat cj
+      match l with
+      | [i, d, s] => pure (some ⟨i, d, s⟩)
+      | _ => throw "costs must be [ins, del, sub]"
+  let costsJ : List (String × Json) := match costs with
+    | none => [("fixed_costs", Json.null), ("batch1_costs", Json.null)]
+    | some cs =>
+      [("fixed_costs", erOutJ (erFromDirs ltName (erC02 cs) rep ign warn dist perUtt false batch refs hyps)),
+       ("batch1_costs", erOutJ (erFromDirs ltName (erC02 cs) rep ign warn dist perUtt false 1 refs hyps))]
+  pure (objJ (costsJ ++ [("pinned", erOutJ pinned), ("fixed", erOutJ fixed), ("batch1", erOutJ one),
     ("prepped", listJ (fun (u, r, h) => Json.arr #[nameJ u, listJ strJ r, listJ strJ h]) prepped),
-    ("unit", boolJ table.isNone)])
+    ("unit", boolJ table.isNone)]))
 
 def jsonToLenUtt (j : Json) : Except String (Nat × FName) := do
   let a ← j.getArr?
@@ -342,5 +358,67 @@ def c17Trn : Handler := fun c => do
       ("back", optJ (listJ (fun (e : FName × List String) =>
         Json.arr #[nameJ e.1, listJ strJ e.2])) back)])
 
+/-- `write_textgrid`'s path branch forwards these options (C11's `tgForwarded`; `point_tier` is
+dropped). -/
+def tgFwd : List String := ["start_time", "end_time", "tier_name", "precision"]
+
+/-- case: that of `c17.trn` plus {shift: "n/d" (ms), timed: [[utt, [[tok, "start", "end"]..]]..],
+tg: null | {tg_suffix, tier, precision}} — the ctm / TextGrid commands with times. Reply:
+`trn` (the reply of `c17.trn`: token ids and tokens only), `rows` (the `(R, 3)` tensor of every
+file `ctm_to_torch_token_data_dir` / `textgrids_to_torch_token_data_dir` writes), `mid` (the
+transcripts `torch_token_data_dir_to_ctm` hands to `write_ctm`), `grids` (the lines of every
+TextGrid `torch_token_data_dir_to_textgrids --infer` writes). -/
+def c17Timed : Handler := fun c => do
+  let base ← c17Trn c
+  let p ← getName c "prefix"
+  let s ← getName c "suffix"
+  let t2i ← getList (fun j => do
+      let a ← j.getArr?
+      if a.size != 2 then throw "expected [tok, id]"
+      let t ← jsonToStr a[0]!
+      let i ← jsonToInt a[1]!
+      pure (t, i)) c "t2i"
+  let shift ← getRat c "shift"
+  let timed ← getList (fun j => do
+      let a ← j.getArr?
+      if a.size != 2 then throw "expected [utt, entries]"
+      let u ← jsonToName a[0]!
+      let es ← jsonToList (fun k => do
+        let b ← k.getArr?
+        if b.size != 3 then throw "expected [tok, start, end]"
+        let tok ← jsonToStr b[0]!
+        let st ← jsonToRat b[1]!
+        let en ← jsonToRat b[2]!
+        pure (tok, st, en)) a[1]!
+      pure (u, es)) c "timed"
+  let t2iT : List (PdtVerif.Transcripts.Tok × Int) := t2i.map (fun (t, i) => (.s t, i))
+  let i2tT : List (Int × PdtVerif.Transcripts.Tok) := t2i.map (fun (t, i) => (i, .s t))
+  let rowJ := fun (r : Int × Int × Int) => Json.arr #[intJ r.1, intJ r.2.1, intJ r.2.2]
+  match timedToDir p s t2iT shift none timed with
+  | .error _ => pure (objJ [("trn", base), ("rows", Json.null), ("mid", Json.null), ("grids", Json.null)])
+  | .ok d =>
+    let dSorted := d.mergeSort (fun a b => leName a.1 b.1)
+    let mid := dirToTimed leName p s i2tT shift d
+    let grids : Json := match fieldOpt c "tg" with
+      | none | some Json.null => Json.null
+      | some tg =>
+        match getName tg "tg_suffix", getStr tg "tier", getNat tg "precision" with
+        | .ok tgs, .ok tier, .ok prec =>
+          listJ (fun (e : FName × List (Int × Int × Int)) =>
+            Json.arr #[nameJ (stemOf s e.1 ++ tgs),
+              match tokToTextGrid tgFwd i2tT shift tier prec e.2 with
+              | .ok g => listJ strJ g.render
+              | .error .otherMethod => objJ [("error", strJ "other_method")]
+              | .error .value => objJ [("error", strJ "ValueError")]])
+            (dSorted.filter (fun e => selects p s e.1))
+        | _, _, _ => Json.null
+    pure (objJ [("trn", base),
+      ("rows", listJ (fun (e : FName × List (Int × Int × Int)) =>
+        Json.arr #[nameJ e.1, listJ rowJ e.2]) dSorted),
+      ("mid", optJ (listJ (fun (e : String × List PdtVerif.Transcripts.Timed) =>
+        Json.arr #[strJ e.1, listJ (fun (x : PdtVerif.Transcripts.Timed) =>
+          Json.arr #[strJ x.1, ratToJson x.2.1, ratToJson x.2.2]) e.2])) mid),
+      ("grids", grids)])
+
 def main : IO Unit := Proto.run [("c17.names", c17Names), ("c17.rle", c17Rle), ("c17.alidir", c17AliDir), ("c17.refdir", c17RefDir), ("c17.er", c17Er),
-  ("c17.subset", c17Subset), ("c17.moments", c17Moments), ("c17.mvn", c17Mvn), ("c17.trn", c17Trn)]
+  ("c17.subset", c17Subset), ("c17.moments", c17Moments), ("c17.mvn", c17Mvn), ("c17.trn", c17Trn), ("c17.timed", c17Timed)]
